@@ -257,15 +257,33 @@ def toml_value(v):
     raise ToolError("bad toml value %r" % (v,))
 
 
+PRE_PLAIN = '[package]\nname = "case"\nversion = "0.1.0"\nedition = "2021"\n\n'
+PRE_DECOY = PRE_PLAIN + '[package.metadata.other]\ndefault = "zz"\nlocales = ["zz"]\n\n'
+POST_DEPS = '\n[dependencies]\nserde = "1"\n\n[features]\ndefault = []\n'
+
+
+def _tagged_toml(v):
+    if "str" in v:
+        return json.dumps(v["str"])
+    if "list" in v:
+        return "[" + ", ".join(json.dumps(x) for x in v["list"]) + "]"
+    if "pairs" in v:
+        return "{ " + ", ".join(json.dumps(k) + " = " + json.dumps(x) for k, x in v["pairs"]) + " }"
+    raise ToolError("bad tagged toml value %r" % (v,))
+
+
 def manifest_text(cfg):
     """cfg: either the simple form {default, locales, namespaces?, inherits?: [[k,v]..], dir?}
-    or the raw form {raw: true, pre, section, lines: [..], post} produced by the Config spec."""
+    or the raw form {raw: true, section, fields: [[name, tagged value]..], pre, post} of the Config spec."""
     if cfg.get("raw"):
-        parts = [cfg.get("pre", "")]
+        parts = [PRE_DECOY if cfg.get("pre") == "decoy" else PRE_PLAIN]
         if cfg.get("section", True):
             parts.append("[package.metadata.leptos-i18n]\n")
-        parts += [ln + "\n" for ln in cfg["lines"]]
-        parts.append(cfg.get("post", ""))
+        else:
+            parts.append("[package.metadata.not-leptos-i18n]\n")
+        parts += [name + " = " + _tagged_toml(v) + "\n" for name, v in cfg["fields"]]
+        if cfg.get("post") == "deps":
+            parts.append(POST_DEPS)
         return "".join(parts)
     lines = ['[package]', 'name = "case"', 'version = "0.1.0"', 'edition = "2021"', '',
              '[package.metadata.leptos-i18n]',
